@@ -7,6 +7,7 @@ import (
 	"encoding/binary"
 	"fmt"
 	"io"
+	"math"
 )
 
 // Extension RTP Header extension.
@@ -403,6 +404,10 @@ func (h *Header) SetExtension(id uint8, payload []byte) error { //nolint:gocogni
 		default: // RFC3550 Extension
 			if id != 0 {
 				return fmt.Errorf("%w actual(%d)", errRFC3550HeaderIDRange, id)
+			}
+			// The length of the extension is a 16-bit count of 32-bit words.
+			if len(payload) > math.MaxUint16*4 {
+				return fmt.Errorf("%w actual(%d)", errRFC3550HeaderSize, len(payload))
 			}
 		}
 
